@@ -57,7 +57,8 @@ theorem dec3_facts : ∀ d, d < 256 → parseUint8 (Src.dec3 d) = some d ∧ (95
 
 theorem fromHexGo_text (addr : Bytes) : fromHexGo ([48, 120] ++ Src.hexBytes addr) = addr := by
   have : (Src.hexBytes addr).length % 2 = 0 := by rw [hexBytes_length]; omega
-  simp [fromHexGo, this, hexLenient_hexBytes]
+  show hexLenient (if (Src.hexBytes addr).length % 2 = 1 then 48 :: Src.hexBytes addr else Src.hexBytes addr) = addr
+  rw [if_neg (by omega), hexLenient_hexBytes]
 
 theorem bytesToAddress_20 (addr : Bytes) (h : addr.length = 20) : bytesToAddress addr = addr := by
   simp [bytesToAddress, h, leftPad]
@@ -76,5 +77,62 @@ theorem btc_src (src nonce : Nat) (rid : Bytes) (sat : Nat) (addr : Bytes) (dst 
   unfold btcDeposit
   rw [hsplit]
   simp only [(dec3_facts dst hd).1, fromHexGo_text, bytesToAddress_20 addr ha]
+
+end Sygma.C01
+
+namespace Sygma.C01
+
+theorem hexStrict_spec : ∀ (s b : Bytes), Src.hexStrict s = some b → hexLenient s = b ∧ s.length = 2 * b.length
+  | [], b, h => by simp [Src.hexStrict] at h; subst h; simp [hexLenient]
+  | [_], b, h => by simp [Src.hexStrict] at h
+  | a :: c :: rest, b, h => by
+    unfold Src.hexStrict at h
+    cases hx : hexNib a with
+    | none => simp [hx] at h
+    | some x =>
+      cases hy : hexNib c with
+      | none => simp [hx, hy] at h
+      | some y =>
+        cases hr : Src.hexStrict rest with
+        | none => simp [hx, hy, hr] at h
+        | some r =>
+          simp only [hx, hy, hr, Option.some.injEq] at h
+          obtain ⟨ih1, ih2⟩ := hexStrict_spec rest r hr
+          subst h
+          constructor
+          · simp [hexLenient, hx, hy, ih1]
+          · simp [ih2]; omega
+
+theorem fromHexGo_strip (p0 addr : Bytes) (h : Src.hexStrict (strip0x p0) = some addr) : fromHexGo p0 = addr := by
+  obtain ⟨h1, h2⟩ := hexStrict_spec _ _ h
+  have hev : (strip0x p0).length % 2 = 0 := by omega
+  have : fromHexGo p0 = hexLenient (if (strip0x p0).length % 2 = 1 then 48 :: strip0x p0 else strip0x p0) := rfl
+  rw [this, if_neg (by omega), h1]
+
+/-- every text the relation `parseBtcText` accepts is read by the handler as exactly that address and destination -/
+theorem btc_src_text (src nonce : Nat) (rid : Bytes) (sat : Nat) (text addr : Bytes) (dst : Nat)
+    (h : Src.parseBtcText text = some (addr, dst)) :
+    btcDeposit src nonce rid sat text =
+      .ok ⟨⟨src, dst, nonce, rid⟩, .fungible, [.bytes (natToBE (sat * 10 ^ 10)), .bytes addr], none⟩ := by
+  unfold Src.parseBtcText at h
+  split at h
+  · next p0 p1 hsp =>
+    cases hhx : Src.hexStrict (strip0x p0) with
+    | none => simp [hhx] at h
+    | some a =>
+      simp only [hhx] at h
+      split at h
+      · next hc =>
+        obtain ⟨hlen, hne, hall, hlt⟩ := hc
+        simp only [Option.some.injEq, Prod.mk.injEq] at h
+        obtain ⟨rfl, rfl⟩ := h
+        have hp : parseUint8 p1 = some (decValue p1) := by
+          unfold parseUint8
+          rw [if_pos ⟨hne, hall, hlt⟩]
+        unfold btcDeposit
+        rw [hsp]
+        simp only [hp, fromHexGo_strip p0 a hhx, bytesToAddress_20 a hlen]
+      · cases h
+  · cases h
 
 end Sygma.C01
